@@ -32,7 +32,7 @@ ARRAYS = {  # code: (element bytes, source device, element generator)
     "0009": (3, "01:145038", lambda r, i: f"{i:02X}" + r.choice(["00", "01"]) + r.choice(["00", "FF"])),
     "000A": (6, "01:145038", lambda r, i: f"{i:02X}" + r.choice(["00", "10", "13"]) + r.choice(["01F4", "0000"]) + r.choice(["0DAC", "0BB8"])),
     "2309": (3, "01:145038", lambda r, i: f"{i:02X}" + r.choice(["07D0", "7FFF", "7EFF", "01F4", "0000", f"{r.randrange(0, 0x0DAC):04X}"])),
-    "30C9": (3, "01:145038", lambda r, i: f"{i:02X}" + r.choice(["07D0", "7FFF", "0834", "FF9C", "8000", f"{r.randrange(0, 65536):04X}"])),
+    "30C9": (3, "01:145038", lambda r, i: f"{i:02X}" + r.choice(["07D0", "7FFF", "0834", "FF9C", "8000", "0000", "7EFF", "FFFF", "0001", f"{r.randrange(0, 65536):04X}"])),
     "2249": (7, "23:100224", lambda r, i: f"{i:02X}" + r.choice(["07D0", "7EFF"]) + r.choice(["0834", "7EFF"]) + f"{r.randrange(0, 65536):04X}"),
     "22C9": (6, "02:044328", lambda r, i: f"{i:02X}" + "01F40A28" + r.choice(["01", "02"])),
     "3150": (2, "02:044328", lambda r, i: f"{i:02X}" + r.choice(["00", "7A", "C8", "6A", "EF", f"{r.randrange(0, 201):02X}"])),
